@@ -187,8 +187,11 @@ class BoundMethod:
 
 
 class FuncRef:
-    def __init__(self, fn):
+    """a nested function together with the environment it was defined in (closure)"""
+
+    def __init__(self, fn, env=None):
         self.fn = fn
+        self.env = env
 
 
 class Opaque:
@@ -446,14 +449,14 @@ class Interp:
         raise Fork(key)
 
     # ---------------------------------------------------------------- functions
-    def call_function(self, fn, args, kwargs, self_obj=None, node=None):
+    def call_function(self, fn, args, kwargs, self_obj=None, node=None, closure_env=None):
         if self.depth >= MAX_DEPTH:
             raise Unsupported("inlining depth bound exceeded in " + fn.name, node)
         params = fn.args
         if params.vararg or params.kwarg or params.posonlyargs:
             raise Unsupported("varargs in " + fn.name, node)
         names = [a.arg for a in params.args]
-        env = {}
+        env = dict(closure_env) if closure_env is not None else {}   # free variables of a closure read the defining scope
         pos = list(args)
         if self_obj is not None:
             pos = [self_obj] + pos
@@ -484,6 +487,13 @@ class Interp:
             return r.value
         finally:
             self.depth -= 1
+            if closure_env is not None:
+                # `nonlocal x` assignments are visible in the defining scope
+                for st in fn.body:
+                    if isinstance(st, ast.Nonlocal):
+                        for nme in st.names:
+                            if nme in env:
+                                closure_env[nme] = env[nme]
 
     def find_method(self, obj, name):
         cls = obj.cls
@@ -557,7 +567,7 @@ class Interp:
         elif isinstance(st, (ast.Import, ast.ImportFrom, ast.Global, ast.Nonlocal)):
             return
         elif isinstance(st, ast.FunctionDef):
-            env[st.name] = FuncRef(st)
+            env[st.name] = FuncRef(st, env)
         else:
             raise Unsupported("statement " + type(st).__name__, st)
 
@@ -1416,7 +1426,7 @@ class Interp:
         if isinstance(callee, BoundMethod):
             return self.call_bound(callee, args, kwargs, e)
         if isinstance(callee, FuncRef):
-            return self.call_function(callee.fn, args, kwargs, None, e)
+            return self.call_function(callee.fn, args, kwargs, None, e, closure_env=callee.env)
         if isinstance(callee, Opaque):
             return self.opaque_call(callee.name, args, kwargs, e)
         if isinstance(callee, Path) and not args and not kwargs:
